@@ -76,7 +76,7 @@ func c06Unit(c *RunCtx, unit int) {
 			s.W.Store.PutTokens(U.PID, []string{sim.Sha512B64("foreign-instance-token-u"), sim.Sha512B64("foreign-instance-token-u2")})
 			s.W.Store.PutTokens(V.PID, []string{sim.Sha512B64("foreign-instance-token-v")})
 		}
-		jars := make([]string, 5)
+		jars := make([]string, 6)
 		for b := 0; b < 5; b++ {
 			jars[b] = s.Br[b].B.Jar["rm"]
 		}
@@ -85,6 +85,28 @@ func c06Unit(c *RunCtx, unit int) {
 		via := pickS(r, "recover", "recover", "update")
 		var ch *sim.Step
 		usedTok := ""
+		// interleaving: while the change is in flight (before its i-th backend call) a login with the OLD
+		// password and rm=true runs to completion on browser 2 (its cookie jar is emptied first). A login
+		// that the old password still authenticates happened before the change, so its cookie has to be
+		// dead afterwards like every other.
+		var inner *world.Rec
+		innerCookie := ""
+		yieldAt, innerRows := -1, 0
+		s.W.YieldedAt = nil
+		arm := func() {}
+		if rememberLoaded && r.Intn(2) == 0 {
+			yieldAt = r.Intn(7)
+			pid, pw := U.PID, U.Pw
+			arm = func() {
+				s.W.Yield = map[int]func(){yieldAt: func() {
+					bb := s.Br[2].B
+					delete(bb.Jar, "rm")
+					delete(bb.Jar, world.SidCookie)
+					inner = s.W.Do(bb, world.Req{Method: "POST", Path: s.W.P("/login"), Form: map[string]string{"email": pid, "password": pw, "rm": "true"}})
+					innerCookie = bb.Jar["rm"]
+				}}
+			}
+		}
 		if via == "recover" {
 			// the link is opened on a clean browser, or on one that carries the bystander's session
 			rb := 4
@@ -94,19 +116,55 @@ func c06Unit(c *RunCtx, unit int) {
 			step(act("recover_start", 4, target, ""))
 			a := act("recover_end", rb, target, "current")
 			a.Cls2 = newCls
+			arm()
 			ch = step(a)
 			usedTok = a.Secret
 		} else {
 			a := act("admin_updatepw", 0, target, "")
 			a.Cls2 = newCls
+			arm()
 			ch = step(a)
 		}
 		newPw := ch.Act.Secret2
 		if via == "update" {
 			newPw = ch.Act.Secret
 		}
+		if inner != nil {
+			at := "?"
+			if len(s.W.YieldedAt) > 0 {
+				at = s.W.YieldedAt[0]
+			}
+			if inner.SessOut["uid"] == U.PID && innerCookie != "" {
+				c.Stats.Count("login-with-old-password-interleaved-before:" + at)
+			} else {
+				c.Stats.Count("interleaved-login-refused-before:" + at)
+				innerCookie = ""
+			}
+			c.Stats.Sig(fmt.Sprintf("interleaved/%s/before-%s/%v", via, at, innerCookie != ""))
+			if innerCookie != "" && sim.PwEquiv(oldPw, newPw) {
+				// old and new password are the same credential: the interleaved login may just as well have
+				// happened after the change, its cookie may live
+				innerCookie, innerRows = "", 1
+				c.Stats.Count("interleaved-login-same-password-not-judged")
+			}
+		}
+		// the storage delta of the change itself: what the interleaved login did is not the change's doing
+		chDiff := ch.Rec.Diff()
+		if inner != nil {
+			mine := map[world.Change]bool{}
+			for _, d := range inner.Diff() {
+				mine[d] = true
+			}
+			var rest []world.Change
+			for _, d := range chDiff {
+				if !mine[d] {
+					rest = append(rest, d)
+				}
+			}
+			chDiff = rest
+		}
 		changed := false
-		for _, d := range ch.Rec.Diff() {
+		for _, d := range chDiff {
 			if d.PID == U.PID && d.Field == "Password" {
 				changed = true
 			}
@@ -125,7 +183,7 @@ func c06Unit(c *RunCtx, unit int) {
 		if !changed {
 			c.Stats.Count("change-refused:" + newCls)
 			// nothing may have changed at all; the old password must still work
-			if d := ch.Rec.Diff(); len(d) != 0 {
+			if d := chDiff; len(d) != 0 {
 				fail("refused-change-touched-storage", "a refused password change altered storage: %v", d)
 				return
 			}
@@ -139,7 +197,7 @@ func c06Unit(c *RunCtx, unit int) {
 		}
 		c.Stats.Count("change-applied:" + via)
 		// (v) diff restricted to U
-		for _, d := range ch.Rec.Diff() {
+		for _, d := range chDiff {
 			if d.PID != U.PID {
 				fail("change-touched-other-account|"+d.Field, "password change of %q altered %s of %q", U.PID, d.Field, d.PID)
 				return
@@ -172,7 +230,7 @@ func c06Unit(c *RunCtx, unit int) {
 			fail("bystander-tokens-purged", "remember tokens of bystander %q were purged by %q's password change", V.PID, U.PID)
 			return
 		}
-		if rows := s.W.Store.Tokens(U.PID); rememberLoaded && len(rows) != 0 {
+		if rows := s.W.Store.Tokens(U.PID); rememberLoaded && len(rows) > innerRows {
 			// a recover-and-login never asks to be remembered, so no fresh row can exist either
 			fail("remember-rows-survive-password-change|"+via, "%d remember-token rows of %q survive its password change via %s", len(rows), U.PID, via)
 			return
@@ -182,9 +240,15 @@ func c06Unit(c *RunCtx, unit int) {
 				fail("bystander-tokens-purged", "remember tokens of bystander %q were purged by %q's password change", V.PID, U.PID)
 				return
 			}
-			for b := 0; b < k; b++ {
-				if jars[b] == "" {
+			jars[5] = innerCookie
+			for _, b := range []int{0, 1, 2, 5} {
+				if b < 3 && b >= k || jars[b] == "" {
 					continue
+				}
+				if b == 5 {
+					// the cookie the interleaved old-password login obtained, presented from browser 2
+					jars[2], b = innerCookie, 2
+					c.Stats.Count("interleaved-cookie-presented")
 				}
 				step(act("dropsid", b, -9, ""))
 				s.Br[b].B.Jar["rm"] = jars[b]
